@@ -44,18 +44,35 @@ type c18Cfg struct {
 	SSL      bool
 	Server   c18Server
 	PingFreq time.Duration
-	Tracking bool // state tracking enabled
-	Welcome  bool // the server sends the 001 welcome (confirming nick and ident) on every connect
+	Tracking bool          // state tracking enabled
+	Welcome  bool          // the server sends the 001 welcome (confirming nick and ident) on every connect
+	TLSCfg   bool          // Config.SSLConfig is set although Config.SSL is false: still a plain connection to 6667
+	FloodCtl bool          // flood protection on (Config.Flood false)
+	Chatter  time.Duration // > 0: a user task sends a short line every Chatter while the connection is up
 }
 
 func (c c18Cfg) String() string {
 	return fmt.Sprintf("NewConfig(%s) pass=%s negotiation=%v ssl=%v server=%s pingfreq=%s",
 		map[bool]string{false: `"me"`, true: `"me","myident","My Real Name"`}[c.Given], Q(c.Pass), c.Cap, c.SSL, Q(c.Server.Addr), c.PingFreq) +
-		fmt.Sprintf(" tracking=%v welcome=%v", c.Tracking, c.Welcome)
+		fmt.Sprintf(" tracking=%v welcome=%v", c.Tracking, c.Welcome) + c.extra()
+}
+
+func (c c18Cfg) extra() string {
+	x := ""
+	if c.TLSCfg {
+		x += " sslconfig-set"
+	}
+	if c.FloodCtl {
+		x += " floodctl=on"
+	}
+	if c.Chatter > 0 {
+		x += fmt.Sprintf(" user-line-every=%s", c.Chatter)
+	}
+	return x
 }
 
 func (c c18Cfg) params() map[string]interface{} {
-	return map[string]interface{}{"given": c.Given, "pass": c.Pass, "negotiation": c.Cap, "ssl": c.SSL, "server": c.Server.Addr, "pingfreq": c.PingFreq.String(), "tracking": c.Tracking, "welcome": c.Welcome}
+	return map[string]interface{}{"given": c.Given, "pass": c.Pass, "negotiation": c.Cap, "ssl": c.SSL, "server": c.Server.Addr, "pingfreq": c.PingFreq.String(), "tracking": c.Tracking, "welcome": c.Welcome, "tlscfg": c.TLSCfg, "floodctl": c.FloodCtl, "chatter": c.Chatter.String()}
 }
 
 func (c c18Cfg) build() *client.Config {
@@ -66,13 +83,16 @@ func (c c18Cfg) build() *client.Config {
 		cfg = client.NewConfig("me")
 	}
 	cfg.Proxy = "verif://proxy" // the in-memory dialler records the address it is asked for
-	cfg.Flood = true
+	cfg.Flood = !c.FloodCtl
 	cfg.Server = c.Server.Addr
 	cfg.Pass = c.Pass
 	cfg.EnableCapabilityNegotiation = c.Cap
 	cfg.SSL = c.SSL
 	if c.SSL {
 		// a real handshake attempt (ClientHello is written, the scripted EOF answers it)
+		cfg.SSLConfig = &tls.Config{InsecureSkipVerify: true}
+	}
+	if c.TLSCfg && !c.SSL {
 		cfg.SSLConfig = &tls.Config{InsecureSkipVerify: true}
 	}
 	cfg.PingFreq = c.PingFreq
@@ -171,6 +191,16 @@ func c18RunConfig(e *Enum, c c18Cfg) {
 				vx.Quiesce()
 				_ = cl.Me()
 			}
+			if c.Chatter > 0 {
+				n := int(window / c.Chatter)
+				cy := cy
+				env.Go("user-chatter", func() {
+					for i := 1; i <= n && c.Chatter*time.Duration(i) < window; i++ {
+						vx.Sleep(c.Chatter)
+						cl.Raw(fmt.Sprintf("PRIVMSG #c :c%d-%d", cy, i))
+					}
+				})
+			}
 			vx.Sleep(window)
 			vc.EOF()
 			vx.Quiesce()
@@ -237,6 +267,16 @@ func c18RunConfig(e *Enum, c c18Cfg) {
 			e.Fail(fam, "connect-error", in, fmt.Sprintf("connect %d failed: %s", cy+1, errs[cy]), c.params())
 			return
 		}
+		if c.FloodCtl {
+			// the flood penalty carries over to the next connection and may hold registration lines back: they are
+			// still the first lines of the connection, whenever they are written
+			regLines[cy] = nil
+			for i, l := range o.Conns[connIdx[cy]].Lines() {
+				if i < len(want) {
+					regLines[cy] = append(regLines[cy], l)
+				}
+			}
+		}
 		got := make([]string, len(regLines[cy]))
 		for i, l := range regLines[cy] {
 			got[i] = NormLine(l) // spelling the protocol leaves open (USER's mode fields, CAP LS version) is not judged
@@ -269,7 +309,13 @@ func c18RunConfig(e *Enum, c c18Cfg) {
 		for _, p := range pings {
 			gotAt = append(gotAt, p.At)
 		}
-		if fmt.Sprint(gotAt) != fmt.Sprint(wantAt) {
+		if c.FloodCtl && cy > 0 {
+			// lines of this connection may be held back by the penalty left over from the previous one (C10 judges
+			// write times under flood protection); the period is judged on the first connection only
+			if c.PingFreq > 0 && len(pings) == 0 {
+				e.Fail("keepalive", "keepalive-period", in, fmt.Sprintf("connect %d: no own PING at all in %s", cy+1, c18Window), c.params())
+			}
+		} else if fmt.Sprint(gotAt) != fmt.Sprint(wantAt) {
 			id := "keepalive-period"
 			if c.PingFreq <= 0 {
 				id = "keepalive-when-disabled"
@@ -532,7 +578,7 @@ func c18RenameJob() Job {
 	return Job{Name: name, Cost: 1, Run: func(jc *JobCtx) *JobResult {
 		e := NewEnum(name)
 		for _, track := range []bool{false, true} {
-			for _, how := range []string{"forced", "welcome-other", "collision", "requested"} {
+			for _, how := range []string{"forced", "welcome-other", "collision", "requested", "welcome-other-nomask", "collision-nomask", "forced-nomask"} {
 				for _, readMe := range []bool{false, true} {
 					in := fmt.Sprintf("tracking=%v rename=%s Me()-called-before-reconnect=%v", track, how, readMe)
 					e.Case(in)
@@ -556,6 +602,14 @@ func c18RenameJob() Job {
 						case "collision":
 							want = client.DefaultNewNick("me")
 							s.Feed(":irc 433 * me :Nickname is already in use", ":irc 001 "+want+" :Welcome "+want+"!ident@host")
+						// the same with welcome texts that do not end in nick!user@host (many networks)
+						case "welcome-other-nomask":
+							s.Feed(":irc 001 neo :Welcome to the Example IRC Network, neo")
+						case "collision-nomask":
+							want = client.DefaultNewNick("me")
+							s.Feed(":irc 433 * me :Nickname is already in use", ":irc 001 "+want+" :Welcome to the Example IRC Network")
+						case "forced-nomask":
+							s.Feed(":irc 001 me :Welcome", ":me!ident@host NICK :neo")
 						case "requested":
 							s.Feed(":irc 001 me :Welcome me!ident@host")
 							s.C.Nick("neo")
@@ -604,6 +658,39 @@ func c18RenameJob() Job {
 	}}
 }
 
+// c18TrafficJob: the keep-alive period does not depend on other traffic or on flood protection, and a TLS
+// configuration that is merely present does not switch TLS on.
+func c18TrafficJob() Job {
+	name := "config/keepalive-under-traffic"
+	return Job{Name: name, Cost: 2, Run: func(jc *JobCtx) *JobResult {
+		e := NewEnum(name)
+		for _, srv := range []c18Server{c18Servers[0], c18Servers[1]} {
+			for _, fc := range []bool{false, true} {
+				for _, ch := range []time.Duration{0, 2500 * time.Millisecond, time.Second} {
+					if fc && ch == time.Second {
+						continue // a line a second runs into the flood limit: write times are C10's subject
+					}
+					for _, tc := range []bool{false, true} {
+						for _, tr := range []bool{false, true} {
+							c := c18Cfg{Server: srv, PingFreq: 3 * time.Second, FloodCtl: fc, Chatter: ch, TLSCfg: tc, Tracking: tr, Welcome: tr}
+							e.Case(c.String())
+							c18RunConfig(e, c)
+						}
+					}
+				}
+			}
+		}
+		for _, srv := range c18Servers {
+			for _, pass := range []string{"", "sekrit"} {
+				c := c18Cfg{Server: srv, Pass: pass, TLSCfg: true}
+				e.Case(c.String())
+				c18RunConfig(e, c)
+			}
+		}
+		return e.Done()
+	}}
+}
+
 // c18LenJob (thorough): tokens of every length from..to-1 in trailing form, one session per 47 lengths.
 func c18LenJob(from, to int) Job {
 	name := fmt.Sprintf("ping/length/%03d-%03d", from, to-1)
@@ -634,7 +721,7 @@ func c18LenJob(from, to int) Job {
 func init() {
 	Register(&Prop{
 		ID:   "C18",
-		Rule: "configurations: full product of NewConfig(nick) defaults / given ident+name x password unset/set x negotiation on/off x SSL on/off x 6 server spellings (name, IPv4, bracketed IPv6; with and without port) x PingFreq {0, -1s, 3s} (thorough: also -1ns, 0.7s, 1.5s, 7s, 11s), each run as a session of two connects on one client with 10 s of virtual time after each (SSL: the server closes during the handshake, only the dial address and the failure of Connect are observed); PING answers: 14 tokens (single byte, with spaces, leading colon, empty-but-present, inner colons, 400 bytes, ...) in trailing form, with a source, in middle form and with a second parameter where legal; each alone in five surroundings, all ordered pairs in one write with chat between or after, and all variants in one session (three rounds, seven rotations, with and without the client's own keep-alive running), before and after the welcome; thorough: also every token length 1..470; one case = one configuration / one probe script, distinct = distinct configurations / scripts",
+		Rule: "configurations: full product of NewConfig(nick) defaults / given ident+name x password unset/set x negotiation on/off x SSL on/off x 6 server spellings (name, IPv4, bracketed IPv6; with and without port) x PingFreq {0, -1s, 3s} (thorough: also -1ns, 0.7s, 1.5s, 7s, 11s), plus (job keepalive-under-traffic) flood protection on/off x a user line every 2.5 s / 1 s / never x Config.SSLConfig set with SSL off, each run as a session of two connects on one client with 10 s of virtual time after each (SSL: the server closes during the handshake, only the dial address and the failure of Connect are observed); PING answers: 14 tokens (single byte, with spaces, leading colon, empty-but-present, inner colons, 400 bytes, ...) in trailing form, with a source, in middle form and with a second parameter where legal; each alone in five surroundings, all ordered pairs in one write with chat between or after, and all variants in one session (three rounds, seven rotations, with and without the client's own keep-alive running), before and after the welcome; thorough: also every token length 1..470; one case = one configuration / one probe script, distinct = distinct configurations / scripts",
 		Assumptions: []string{
 			"the address is observed at the registered proxy dialler (Config.Proxy set); the direct net.Dialer path passes the same Config.Server string",
 			"for the bracketed IPv6 literal without port the port is expected to be appended to the literal as written ([::1]:6667)",
@@ -662,7 +749,7 @@ func init() {
 					jobs = append(jobs, c18LenJob(from, from+47))
 				}
 			}
-			jobs = append(jobs, c18RenameJob())
+			jobs = append(jobs, c18RenameJob(), c18TrafficJob())
 			n := len(c18Pings())
 			for _, w := range []bool{false, true} {
 				jobs = append(jobs, c18SingleJob(w))
